@@ -1,10 +1,40 @@
-# C08 registry entry (M is injected by lib/props.py) -- placeholder texts, completed after calibration
+# C08 registry entry (M is injected by lib/props.py)
 PROP = dict(
     title="length() and normalisation are accurate for every non-overflowing vector",
-    rule="tbd",
-    assumptions=[],
-    technique="tbd",
-    level_text="tbd",
-    level_note="tbd",
-    monitors=[M("c08_length", ["c08_length.cpp", "c08_normalize.cpp"], san_scale=0.05)],
+    rule=("Vectors are generated per case index: dimension = 2 + idx mod 3, input class = (idx div 3) mod 8, sweep counter j = idx div 24. "
+          "Classes: (1) all components +-m*2^e with a common exponent e = j swept over the WHOLE range from the smallest subnormal binade "
+          "(2^-149 / 2^-1074) to the top binade below sqrt(max)/2; (2) mixed magnitudes: leading exponent swept, the other components "
+          "2^0..2^-60 below it (one ratio swept deterministically); (3) a single non-zero component (random mantissa or exact power of two, "
+          "either sign) among signed zeros; (4) |v|^2 densely on both sides of the 2*min threshold at which length() switches to the scaled "
+          "algorithm (relative offsets +-2^-1..2^-(p+2)), around min, log-uniform over [min/8, 16 min), and exact hits |v|^2 == 2*min and their "
+          "1-ulp neighbours; (5) every component subnormal, including 0..4 quanta; (6) components at / just below the quantifier's limit "
+          "prev(sqrt(max))/2 (all four exactly at the limit included); (7) independent exponents over the whole range with some zeros; "
+          "(8) exponents around half the minimum exponent where squares pass from normal through subnormal to zero. The branch length() takes "
+          "is inferred from v.dot(v) < 2*min and counted (lengthTiny_path / sqrt_path, threshold_below / above / exact). "
+          "length: compared with the Euclidean norm evaluated by an index loop in long double (float) / __float128 (double; squares exact, "
+          "exponent range 2^+-16383 so no scaling is needed), error in units of the spacing of T at the reference (subnormal grid below min), "
+          "bound 24 ulps on the lengthTiny path and 18 on the sqrt path (8x the worst observed 2.81 / 2.22); length == 0 iff all components are "
+          "zero; result finite. length2: bit for bit equal to v.dot(v), v ^ v and the loop sum_i v[i]*v[i] in T. "
+          "normalize, normalizeExc, normalizeNonNull (in place) and normalized, normalizedExc, normalizedNonNull (value): every function on every "
+          "vector, all 3 dimensions x {float,double}: no NaN/inf for any non-zero input; when the reference norm is a normal number: "
+          "| |n| - 1 | <= 16 eps (|n| in the reference precision), signbit(n_i) == signbit(v_i) (signed zeros kept), "
+          "|n_i * ref - v_i| <= 16 eps * ref for every i (8x the worst observed 1.84 / 1.83); Exc forms must not throw on a non-zero vector. "
+          "Vectors with a subnormal reference norm are judged for finiteness only (class norm_subnormal_only_finiteness_judged). "
+          "zero_vectors: all 4+8+16 sign patterns of the zero vector x {float,double} exhaustively: length and length2 return 0, normalize and "
+          "normalized give the zero vector, the Exc forms throw std::domain_error or leave/return the zero vector, never NaN (NonNull forms have "
+          "the precondition v != 0 and are not called). Distinct cases are counted by a hash of (dimension, type, component bits) for every 4th "
+          "case (lower bound, capped by the framework); every generated vector is non-zero and counts as non-trivial."),
+    assumptions=["long double (64-bit significand) and libquadmath __float128 arithmetic incl. sqrtl/sqrtq are correct; squares of float/double inputs are exact in them",
+                 "'a few ulps' is read as the calibrated bounds 24 / 18 ulps (length) and 16 eps (normalisation), 8x the worst error observed on 3e9 pristine cases; a regression of a couple of ulps is invisible",
+                 "for vectors whose norm is subnormal the normalize family is only required to return finite values (the statement's accuracy clause is restricted to normal norms)",
+                 "whether the Exc forms throw on the zero vector is C07's concern; here throwing std::domain_error or returning the zero vector are both accepted",
+                 "gcc on x86-64 without FMA contraction (the bit-for-bit length2 == loop sum comparison assumes separately rounded products)"],
+    technique=("class-directed randomised execution with deterministic exponent / threshold sweeps against a higher-precision reference norm "
+               "(long double / __float128); exhaustive enumeration of signed-zero vectors; ASan/UBSan on a sampled sweep"),
+    level_text=("All 8 functions x Vec2/3/4 x {float,double} (48 instantiations) are executed on every run: 1.1e8 vectors (quick) / 3.3e9 (thorough), "
+                "every exponent binade of the legal range visited deterministically thousands of times, the 2*min switch-over sampled densely on "
+                "both sides with exact hits, signed zeros and single-component vectors by construction, and each result compared with a "
+                "higher-precision Euclidean norm. The input space (2^64..2^256 vectors) can only be sampled."),
+    level_note="sampled, not exhaustive; tolerance 8x the worst observed error, so few-ulp regressions (e.g. moving the 2*min threshold to min, which measurably does not worsen accuracy) are not flagged",
+    monitors=[M("c08_length", ["c08_length.cpp", "c08_normalize.cpp"], san_scale=0.05, san_scale_thorough=0.02)],
 )
